@@ -127,7 +127,18 @@ def judge(ch, label, cul, q, ref, src):
 
 
 def body(ch):
-    part = ch.pick('part', ('specs', 'generated', 'durations', 'nonexistent', 'two-threads'))
+    part = ch.pick('part', ('specs', 'generated', 'durations', 'hour-ranges', 'nonexistent', 'two-threads'))
+    if part == 'hour-ranges':
+        # every pair of bare hours H1 < H2 (no am/pm) as a range on a date: all four am/pm readings the library may add must
+        # still be valid clock times
+        h1 = ch.pick('h1', range(0, 23))
+        ch.shard()
+        h2 = ch.pick('h2', range(h1 + 1, 24))
+        dexpr = ch.pick('date', ('tomorrow', 'on monday', 'january 5 2019'))
+        shape = ch.pick('shape', ('from %d to %d %s', '%s from %d to %d', '%s between %d and %d'))
+        q = shape % ((h1, h2, dexpr) if shape.startswith('from') else (dexpr, h1, h2))
+        judge(ch, 'hour-ranges|h2-%s' % ('<=12' if h2 <= 12 else '>12'), 'en-us', q, datetime(2016, 11, 7, 12, 0, 0), 'hour-range-grammar')
+        return
     if part == 'durations':
         pool = CFG['durations']
         ci = ch.pick_index('chunk', (len(pool) + 99) // 100)
